@@ -486,7 +486,7 @@ fn c38_main(args: &Args) -> i32 {
     let default_limit = Config::default_with_paths(PathBuf::from("/nonexistent.conf"), PathBuf::from("/nonexistent"))
         .max_object_size.expect("the default configuration has a size limit");
     rep.note(C38, "default_limit", json!(default_limit));
-    rep.note(C38, "small_limit", json!(SMALL_LIMIT));
+    rep.note(C38, "small_limits", json!([SMALL_LIMIT, 768, 1536, 1000, 63, 4096, 249]));
     let work = Arc::new(Mutex::new((0..rows.len()).collect::<Vec<_>>().into_iter()));
     let rows = Arc::new(rows);
     let nthreads = args.opt_usize("jobs", 8);
@@ -501,9 +501,15 @@ fn c38_main(args: &Args) -> i32 {
                 loop {
                     let idx = match work.lock().unwrap().next() { Some(i) => i, None => break };
                     let row = &rows[idx];
-                    let res = catch(std::panic::AssertUnwindSafe(|| c38_row(&mut rep, &rig, row, default_limit, idx as u64 + args.seed)));
-                    if let Err(msg) = res {
-                        rep.violation(C38, "panic", format!("panic: {msg}"), row.clone(), json!({"panic": msg}));
+                    // the class "small limit" stands for several concrete limits: a round one, and values at which the
+                    // pieces the base64 reader hands out end exactly (768 and its multiples, 63, ...)
+                    let uses_small = row["limit"].as_u64() == Some(10) || matches!(row["size"].as_u64(), Some(9) | Some(10) | Some(11));
+                    let smalls: &[u64] = if uses_small { &[SMALL_LIMIT, 768, 1536, 1000, 63, 4096, 249] } else { &[SMALL_LIMIT] };
+                    for small in smalls {
+                        let res = catch(std::panic::AssertUnwindSafe(|| c38_row(&mut rep, &rig, row, default_limit, idx as u64 + args.seed, *small)));
+                        if let Err(msg) = res {
+                            rep.violation(C38, "panic", format!("panic: {msg}"), row.clone(), json!({"panic": msg, "small_limit": small}));
+                        }
                     }
                 }
                 rep
@@ -572,11 +578,11 @@ fn c38_rsync(rep: &mut Report, factory: &Factory, name: &str, limit: Option<u64>
 
 fn limit_name(l: u64) -> &'static str { match l { 0 => "none", 10 => "small", _ => "default" } }
 
-fn c38_row(rep: &mut Report, rig: &Rig, row: &Value, default_limit: u64, salt: u64) {
+fn c38_row(rep: &mut Report, rig: &Rig, row: &Value, default_limit: u64, salt: u64, small_limit: u64) {
     let l = row["limit"].as_u64().unwrap();
-    let limit = match l { 0 => None, 10 => Some(SMALL_LIMIT), 20 => Some(default_limit), _ => panic!("limit class") };
+    let limit = match l { 0 => None, 10 => Some(small_limit), 20 => Some(default_limit), _ => panic!("limit class") };
     let size = match row["size"].as_u64().unwrap() {
-        9 => SMALL_LIMIT - 1, 10 => SMALL_LIMIT, 11 => SMALL_LIMIT + 1,
+        9 => small_limit - 1, 10 => small_limit, 11 => small_limit + 1,
         19 => default_limit - 1, 20 => default_limit, 21 => default_limit + 1,
         40 => default_limit + 5_000_000, _ => panic!("size class"),
     } as usize;
@@ -599,7 +605,7 @@ fn c38_row(rep: &mut Report, rig: &Rig, row: &Value, default_limit: u64, salt: u
     let body = body_of(size, salt);
     let small = format!("{base}small.roa");
     let big = format!("{base}big.bin");
-    let ctx = json!({"row": row, "limit": limit, "size": size, "place": place});
+    let ctx = json!({"row": row, "limit": limit, "size": size, "place": place, "small_limit": small_limit});
     let (accepted, detail): (bool, Value) = match place {
         "ta" => {
             let uri = srv.put_file("/ta/ta.cer", body.clone());
@@ -663,7 +669,7 @@ fn c38_row(rep: &mut Report, rig: &Rig, row: &Value, default_limit: u64, salt: u
                 if expected { "accepted" } else { "refused" }, if accepted { "accepted" } else { "refused" }),
             ctx, detail);
     }
-    else if size <= SMALL_LIMIT as usize + 1 {
+    else if size <= small_limit as usize + 1 {
         rep.sample(C38, json!({"row": row, "limit": limit, "size": size, "accepted": accepted}));
     }
 }
